@@ -7,6 +7,7 @@ from pyvc.unit import unit
 
 DEX = "androguard/core/dex/__init__.py"
 META = {
+    "technique": 'contract-based deductive verification: symbolic execution of the real functions against sidecar contracts (z3/cvc5) for the proved units; bounded contract evaluation (enumerated scope / independent writer) for the rest',
     "level": "other",
     "partial": True,
     "level_text": "Proof (small): ClassManager.get_string / set_hook_string: a hooked index returns the hook, every other index "
